@@ -110,13 +110,49 @@ class StoreRun:
             self.bs.DefaultBlockStore.instance = prev
             s2.close()
 
-    def flush(self, honest=True):
+    def flush(self, honest=True, fault_at=None):
+        """fault_at = k: the k-th SQL statement of this flush (BEGIN, the four inserts, COMMIT) fails with sqlite3.OperationalError
+        ("database is locked": another process reads the same file) -- an environment fault, not the node's doing."""
         raised = False
+        real = self.store.connection
+        if fault_at is not None:
+            import sqlite3
+            count = [0]
+
+            class Cur:
+                def __init__(self, c):
+                    self.c = c
+
+                def _maybe(self):
+                    count[0] += 1
+                    if count[0] == fault_at:
+                        raise sqlite3.OperationalError("database is locked")
+
+                def execute(self, sql, *a):
+                    self._maybe()
+                    return self.c.execute(sql, *a)
+
+                def executemany(self, sql, *a):
+                    self._maybe()
+                    return self.c.executemany(sql, *a)
+
+                def __getattr__(self, n):
+                    return getattr(self.c, n)
+
+            class Con:
+                def cursor(self_):
+                    return Cur(real.cursor())
+
+                def __getattr__(self_, n):
+                    return getattr(real, n)
+            self.store.connection = Con()
         try:
             self.store.flush_blocks_to_disk()
         except Exception as e:
             raised = True
             self.last_error = repr(e)
+        finally:
+            self.store.connection = real
         if not raised:
             for b in self.buffered:
                 self.written[b.hash()] = b
